@@ -113,6 +113,12 @@ pub fn setup(prop: &str, tier: &str, variant: u64) -> Setup {
         "C14" => {
             m.prop = "C14";
             m.c14 = true;
+            // every third history gives the replicas undo managers: anchors that are deleted and brought back by undo
+            // (`Store::follow_redone`), tombstones with `redone` links that are split by remote edits
+            if variant % 3 == 0 {
+                m.undo = true;
+                p.w_undo = 5;
+            }
             p.w_sticky = 10;
             p.ascii_pct = 35;
             p.calls = [14, 4, 3, 3, 10, 1, 2, 6, 6, 2, 8, 2, 0, 1, 0, 0, 4, 3, 0, 0, 0, 0];
@@ -340,7 +346,7 @@ pub fn cmd_sim(args: &Args) -> i32 {
                 entry["min_steps"] = json!(min.steps.len());
                 entry["min_detail"] = json!(minres.violation.iter().chain(minres.soft.iter()).find(|x| x.kind == v.kind).map(|x| x.detail.clone()));
             }
-            if violations.len() < 400 {
+            if crate::util::room(&violations, entry["kind"].as_str().unwrap_or("")) {
                 violations.push(entry);
             }
         }
